@@ -78,9 +78,20 @@ KnownFinding1(stmts, clause) ==
 (* d and m both signal-M): the data input is wired onto the cell's feedback network, the cell sums it in every tick.       *)
 MemType(stmts, m) == IF \E i \in DOMAIN stmts : stmts[i].k = "mem" /\ stmts[i].n = m
                      THEN stmts[CHOOSE i \in DOMAIN stmts : stmts[i].k = "mem" /\ stmts[i].n = m].t ELSE ""
+\* (narrowed after the repair 9b8dddd: only when the same-typed operand is ALSO the data written to the cell - then data source and
+\* feedback are both locked red and genuinely cannot be separated; a foreign same-typed source now takes the other colour)
+RECURSIVE MentionsRef(_, _)
+MentionsRef(e, n) == CASE e.k = "ref" -> e.n = n
+                       [] e.k = "bin" -> MentionsRef(e.l, n) \/ MentionsRef(e.r, n)
+                       [] e.k \in {"un", "proj", "lit"} -> MentionsRef(e.e, n)
+                       [] e.k = "cond" -> MentionsRef(e.c, n) \/ MentionsRef(e.v, n)
+                       [] OTHER -> FALSE
+WritesData(stmts, m, n) == \E i \in DOMAIN stmts : stmts[i].k = "write" /\ stmts[i].m = m /\ MentionsRef(stmts[i].e, n)
 SameTypeReader(stmts) ==
-  \E b \in AllBins(stmts) : \/ (b.l.k = "read" /\ b.r.k = "ref" /\ MemType(stmts, b.l.m) # "" /\ InType(stmts, b.r.n) = MemType(stmts, b.l.m))
-                             \/ (b.r.k = "read" /\ b.l.k = "ref" /\ MemType(stmts, b.r.m) # "" /\ InType(stmts, b.l.n) = MemType(stmts, b.r.m))
+  \E b \in AllBins(stmts) : \/ (b.l.k = "read" /\ b.r.k = "ref" /\ MemType(stmts, b.l.m) # "" /\ InType(stmts, b.r.n) = MemType(stmts, b.l.m)
+                                 /\ WritesData(stmts, b.l.m, b.r.n))
+                             \/ (b.r.k = "read" /\ b.l.k = "ref" /\ MemType(stmts, b.r.m) # "" /\ InType(stmts, b.l.n) = MemType(stmts, b.r.m)
+                                 /\ WritesData(stmts, b.r.m, b.l.n))
 
 (* KF-C04-decider-chain: an UNCONDITIONAL write whose value ends in a conditional value / comparison keeps the two-gate   *)
 (* cell, but no write-enable (signal-W = 1) source is emitted or the decider output is summed onto the feedback network:    *)
